@@ -31,6 +31,10 @@ def Solves (θ : V → Tm) (σ : Subst) : Prop :=
 /-- `θ` unifies `s` and `t` -/
 def Unifies (θ : V → Tm) (s t : Tm) : Prop := FlagEq (inst θ s) (inst θ t)
 
+/-- exact versions (ownership flags included) -/
+def SolvesX (θ : V → Tm) (σ : Subst) : Prop := ∀ v u, lookup σ v = some u → θ v = inst θ u
+def UnifiesX (θ : V → Tm) (s t : Tm) : Prop := inst θ s = inst θ t
+
 /-- every binding of `σ` is a binding of `σ'` -/
 def Extends (σ σ' : Subst) : Prop := ∀ v u, lookup σ v = some u → lookup σ' v = some u
 
@@ -63,6 +67,42 @@ end
 
 /-- every image of the substitution is well-sorted -/
 def WfSubst (σ : Subst) : Prop := ∀ v u, lookup σ v = some u → u.wf = true
+
+/-- keep the ownership flag of a function input only if the input's type is linear -/
+def normFlags (E : Env) : List Nat → List Tm → List Nat
+  | f :: fs, a :: as => (if linear E a then f else 0) :: normFlags E fs as
+  | _ :: fs, [] => 0 :: normFlags E fs []
+  | [], _ => []
+
+def normH (E : Env) : Head → List Tm → Head
+  | .func fl p, as => .func (normFlags E fl as) p
+  | h, _ => h
+
+mutual
+/-- normal form for the property's literal notion of "identical": flags of non-linear inputs are forgotten,
+    flags of linear inputs are kept -/
+def norm (E : Env) : Tm → Tm
+  | .var v => .var v
+  | .atom a => .atom a
+  | .node h as => .node (normH E h as) (normList E as)
+  | .targ t => .targ (norm E t)
+  | .carg c => .carg (norm E c)
+def normList (E : Env) : List Tm → List Tm
+  | [] => []
+  | a :: as => norm E a :: normList E as
+end
+
+/-- the property's literal "identical": equal, except that the ownership flags of a function input may
+    differ when that input's type is not linear -/
+def LinEq (E : Env) (s t : Tm) : Prop := norm E s = norm E t
+
+def SolvesL (E : Env) (θ : V → Tm) (σ : Subst) : Prop :=
+  ∀ v u, lookup σ v = some u → LinEq E (θ v) (inst θ u)
+def UnifiesL (E : Env) (θ : V → Tm) (s t : Tm) : Prop := LinEq E (inst θ s) (inst θ t)
+
+/-- the assignment does not change which types are linear (e.g. it maps every variable to a type with
+    exactly the variable's declared copy/drop capabilities) -/
+def LinInv (E : Env) (θ : V → Tm) : Prop := ∀ x, linear E (inst θ x) = linear E x
 
 /-- the ownership-flag rule is vacuous: nothing is linear -/
 def NoLinear (E : Env) : Prop := ∀ t, linear E t = false
